@@ -58,10 +58,11 @@ def misplaced(table):
     return [(cat, n, i) for cat, names in table.items() for n, rows in names.items() for i, r in enumerate(rows) if i != 2 and any('Terrapin' in str(t) for t in r)]
 
 
-def interpret(repo, ppf, val, extra_env=None, kex_extra=()):
+def interpret(repo, ppf, val, extra_env=None, kex_extra=(), extra_enc=()):
     """val: {kexp, client, c, s, chacha, cbc, etm}.  Returns (final environments, interpreter, None); every final environment carries the per-scan
     table of its own path under '<table>' (the warning adder is interpreted like every other nested helper: what counts is the table afterwards)."""
     enc, mac = offered(val)
+    enc = list(enc) + list(extra_enc)       # names of Terrapin shape the rating table does not know
     role, other = ('client', 'server') if val['client'] else ('server', 'client')
     table = {cat: {n: [['x']] for n in names} for cat, names in DB_NAMES.items()}
     kexlist = ['curve25519-sha256'] + list(kex_extra) + ([C_LIT] if val['c'] else []) + ([S_LIT] if val['s'] else [])
